@@ -483,6 +483,45 @@ def sabaApiOps {X} (c : SabaConfig) (f : Flags) (o : Op X) : Except String (List
 def apiOps {X} (c : Config) (f : Flags) (o : Op X) : Except String (List Prim × Flags) :=
   if initOk c then .ok (opOps c f o) else .error "whfast_init: configuration rejected"
 
+/-! ## `reb_simulation_integrate` around the steps (rebound.c:653-712 `reb_check_exit`,
+    795-886 `reb_simulation_integrate_raw`)
+
+    `integrate(tmax)` is, in terms of the flag machine, a *plan* of API operations interleaved
+    with the three places where the code assigns `r->dt`:
+    * `flipDt`    — `r->dt = copysign(r->dt, dt_sign)` at entry (only an event when the sign changes),
+    * `setDtLast` — `r->dt = tmax - r->t` in the "next step would overshoot" branches of
+                    `reb_check_exit` (both are preceded by `reb_simulation_synchronize`),
+    * `restoreDt` — `r->dt = last_full_dt` after the final synchronize (`exact_finish_time == 1`).
+    `n` = number of full steps, `k` = number of shortened last steps (0, 1, rarely 2): they are
+    decided by the floating-point time arithmetic, which rv/c09.py emulates (and C08 verifies).
+    `syncFirst`: source variant — the repaired entry (fixes/C09-integrate-reverse-sync.diff)
+    synchronises before the sign of `dt` is changed. -/
+
+inductive DtOp where
+  | api (o : Op Unit)
+  | begin          -- last_full_dt := dt ; dt_last_done := 0
+  | flipDt | setDtLast | restoreDt
+  deriving Repr
+
+def lastStepBlock : Nat → List DtOp
+  | 0 => []
+  | k + 1 => [.api .synchronize, .setDtLast, .api .step] ++ lastStepBlock k
+
+def integratePlan (n k : Nat) (exact reverse syncFirst : Bool) : List DtOp :=
+  (if reverse then (if syncFirst then [DtOp.api .synchronize, .flipDt] else [.flipDt]) else []) ++
+  [.begin] ++ (List.replicate n (DtOp.api .step)) ++ lastStepBlock k ++ [.api .synchronize] ++
+  (if exact then [.restoreDt] else [])
+
+/-- does every assignment to `dt` in the plan happen in a synchronised state?
+    (generic in the integrator: `stepF` / `syncF` are its flag transitions) -/
+def dtOk {F : Type} (stepF syncF : F → F) (isS : F → Bool) : List DtOp → F → Bool
+  | [], _ => true
+  | .api .step :: r, f => dtOk stepF syncF isS r (stepF f)
+  | .api .synchronize :: r, f => dtOk stepF syncF isS r (syncF f)
+  | .api _ :: r, f => dtOk stepF syncF isS r f
+  | .begin :: r, f => dtOk stepF syncF isS r f
+  | .flipDt :: r, f | .setDtLast :: r, f | .restoreDt :: r, f => isS f && dtOk stepF syncF isS r f
+
 /-! ## denotation over uninterpreted primitives
 
     The components of the state are the *footprints*: `pj` = `ri_whfast.p_jh` (internal
